@@ -10,4 +10,6 @@ INVARIANT InvMagnet
 INVARIANT InvRefused
 INVARIANT InvAdopt
 INVARIANT InvNoLeak
+INVARIANT InvIdentity
+INVARIANT InvGone
 CHECK_DEADLOCK FALSE
